@@ -638,7 +638,14 @@ func AuthResponseFormPost(res http.ResponseWriter, redirectURI string, response 
 }
 
 func setFragment(uri *url.URL, params url.Values) string {
-	uri.Fragment = params.Encode()
+	// The encoded parameter list already is the escaped form of the fragment.
+	// Setting it as (unescaped) Fragment made URL.String escape every percent sign a second time.
+	encoded := params.Encode()
+	if fragment, err := url.PathUnescape(encoded); err == nil {
+		uri.Fragment, uri.RawFragment = fragment, encoded
+	} else {
+		uri.Fragment = encoded
+	}
 	return uri.String()
 }
 
